@@ -220,6 +220,16 @@ Example C13_ex_history :
      = [false; false; false; false; false; false; true; false; false; false; false; true].
 Proof. vm_compute. repeat split; reflexivity. Qed.
 
+(* the hypotheses of C13_inv are met by non-empty states of every kind (and `accepted` is not implied by the
+   invariant alone only through the TYPE_LIST: it says the setter would take the array again) *)
+Example C13_ex_inv_hypotheses :
+  Inv (mk_cont Photon 2 3 (Some ex_ok2d)) /\ accepted src_tables (mk_cont Photon 2 3 (Some ex_ok2d)) = true
+  /\ Inv (mk_cont Photon 2 3 (Some ex_3d_ok)) /\ accepted src_tables (mk_cont Photon 2 3 (Some ex_3d_ok)) = true
+  /\ Inv (mk_cont Image 1 2 (Some (mk_np [1; 2] U8 [250; 3]%Z)))
+  /\ accepted src_tables (mk_cont Image 1 2 (Some (mk_np [1; 2] U8 [250; 3]%Z))) = true
+  /\ accepted src_tables (mk_cont Photon 2 3 (Some ex_wrong)) = false.
+Proof. vm_compute. repeat split; reflexivity. Qed.
+
 (* a rejected operation after a non-empty history (hypothesis of C13_failed_assign_preserves) *)
 Example C13_ex_failed_assign :
   exists c' e, step src_tables (run src_tables (empty_container Image 2 3) [OSet (mk_np [2; 3] U16 [1; 2; 3; 4; 5; 6]%Z)])
